@@ -104,6 +104,10 @@ def check_case(acc, case, frontend) -> list[dict]:
             if code == "dangling-backref:footnote" and name == "transformed" and _in_unresolved_link(phases[0][1], detail, warn):
                 # recorded finding: docutils replaced an unresolvable '[.. [^a] ..](name)' link by a problematic node
                 code = "dangling-backref:footnote-reference-inside-unresolved-link"
+            if code == "duplicate-id" and re.match(r"'(system-message|problematic)-\d+'", detail) and re.search(r"\{contents\}|\.\. contents::", text) \
+                    and transformed:
+                # recorded finding: docutils' Contents transform copies a title together with the warning MyST put inside it
+                code = "duplicate-id:title-message-copied-into-contents"
             if code in ("duplicate-id", "id-registry-points-elsewhere") and detail.startswith("'equation-") and name.startswith("sphinx"):
                 code = "duplicate-id:sphinx-equation-label"  # recorded finding: duplicate '$$ .. $$ (label)' in Sphinx
             vs.append(mk(f"C03:{code}", {**case, "frontend": frontend}, "well-formed tree", {"phase": name, "detail": detail},
